@@ -27,10 +27,10 @@
 //!
 //!   mfont <id> <path> <index> [t<len>] [w<off>:<hex>] …   register a byte-mutated copy of a font file
 //!       -> ok | reject     (Face::from_slice answer)
-//!   c01 <fontid> <dir> <script> <lang> <flags> <level> <feats> <pre> <post> <text> [k=v …]
+//!   c01 <fontid | @path@index[@t<len>|@w<off>:<hex>]…> <dir> <script> <lang> <flags> <level> <feats> <pre> <post> <text> [k=v …]
 //!       same fields as `shape` (ops/shape.rs) but text = hexcp[*count],… (clusters = running index) and
 //!       k=v additionally: ser=<0|1> (serialize with glyph names / extents / flags / no-advances too)
-//!       -> ok in=<n> out=<m> ms=<elapsed> h=<hash> | reject
+//!       -> ok in=<n> out=<m> ms=<wall> cpu=<cpu time of the request, ms> h=<hash> | reject
 use super::shape as sh;
 use super::util::hex_bytes;
 use crate::State;
@@ -564,6 +564,93 @@ fn mfont(toks: &[&str], st: &mut State) -> Option<String> {
     Some(if ok { "ok".into() } else { "reject".into() })
 }
 
+/// `@<path>@<index>[@t<len>|@w<off>:<hex>]…` — a self-contained (possibly byte-mutated) font of one request
+fn spec_font(st: &mut State, spec: &str) -> Option<(Vec<u8>, u32)> {
+    let mut it = spec.split('@');
+    it.next()?;
+    let path = it.next()?;
+    let idx: u32 = it.next()?.parse().ok()?;
+    let key = format!("lc:{}", path);
+    if !st.fonts.contains_key(&key) {
+        let data = std::fs::read(path).ok()?;
+        let data: &'static [u8] = Box::leak(data.into_boxed_slice());
+        st.fonts.insert(key.clone(), data);
+    }
+    let mut data: Vec<u8> = st.fonts.get(&key)?.to_vec();
+    for m in it {
+        let (k, rest) = m.split_at(1);
+        match k {
+            "t" => data.truncate(rest.parse().ok()?),
+            "w" => {
+                let (off, hex) = rest.split_once(':')?;
+                let off: usize = off.parse().ok()?;
+                for (i, b) in hex_bytes(hex)?.iter().enumerate() {
+                    if off + i < data.len() {
+                        data[off + i] = *b;
+                    }
+                }
+            }
+            _ => return None,
+        }
+    }
+    Some((data, idx))
+}
+
+/// CPU time of this process in ms (utime + stime of /proc/self/stat, 100 Hz ticks): the time monitor must not
+/// depend on how loaded the machine is.
+fn cpu_ms() -> u64 {
+    let s = std::fs::read_to_string("/proc/self/stat").unwrap_or_default();
+    let rest = match s.rfind(')') {
+        Some(i) => &s[i + 1..],
+        None => return 0,
+    };
+    let f: Vec<&str> = rest.split_whitespace().collect();
+    // after the command name: state is field 0, utime is field 11, stime field 12
+    let u: u64 = f.get(11).and_then(|x| x.parse().ok()).unwrap_or(0);
+    let k: u64 = f.get(12).and_then(|x| x.parse().ok()).unwrap_or(0);
+    (u + k) * 10
+}
+
+fn c01_run(face: &Face, r: &sh::Req, ser: bool, t0: std::time::Instant) -> String {
+    let c0 = cpu_ms();
+    let n_in = r.text.len();
+    let mut buf = UnicodeBuffer::new();
+    let mut h = FNV_OFF;
+    let mut n_out = 0;
+    for _ in 0..=r.rep {
+        sh::fill(&mut buf, r);
+        let gb = if r.mode_plan {
+            buf.guess_segment_properties();
+            let plan = ShapePlan::new(face, buf.direction(), Some(buf.script()), buf.language().as_ref(), &r.feats);
+            rustybuzz::shape_with_plan(face, &plan, buf)
+        } else {
+            rustybuzz::shape(face, &r.feats, buf)
+        };
+        n_out = gb.len();
+        h = fnv(h, out_hash(&gb, face));
+        if ser {
+            for fl in [
+                SerializeFlags::empty(),
+                SerializeFlags::GLYPH_EXTENTS | SerializeFlags::GLYPH_FLAGS,
+                SerializeFlags::NO_ADVANCES | SerializeFlags::NO_GLYPH_NAMES,
+                SerializeFlags::NO_CLUSTERS | SerializeFlags::NO_POSITIONS,
+            ] {
+                let s = gb.serialize(face, fl);
+                h = fnv(h, s.len() as u64);
+            }
+        }
+        buf = gb.clear();
+    }
+    format!(
+        "ok in={} out={} ms={} cpu={} h={}",
+        n_in,
+        n_out,
+        t0.elapsed().as_millis(),
+        cpu_ms().saturating_sub(c0),
+        h
+    )
+}
+
 fn c01(toks: &[&str], st: &mut State) -> Option<String> {
     if toks.len() < 11 {
         return None;
@@ -584,39 +671,28 @@ fn c01(toks: &[&str], st: &mut State) -> Option<String> {
     let mut r = sh::parse_req(&t2)?;
     r.text = text.iter().enumerate().map(|(i, c)| (*c, i as u32)).collect();
     let t0 = std::time::Instant::now();
+    if r.font.starts_with('@') {
+        let (data, idx) = spec_font(st, r.font)?;
+        let mut face = match Face::from_slice(&data, idx) {
+            Some(f) => f,
+            None => return Some("reject".into()),
+        };
+        if let Some(p) = r.ppem {
+            face.set_pixels_per_em(Some((p, p)));
+        }
+        if let Some(p) = r.ptem {
+            face.set_points_per_em(Some(p));
+        }
+        if !r.vars.is_empty() {
+            face.set_variations(&r.vars);
+        }
+        return Some(c01_run(&face, &r, ser, t0));
+    }
     let face = match sh::make_face(st, &r) {
         Some(f) => f,
         None => return Some("reject".into()),
     };
-    let n_in = r.text.len();
-    let mut buf = UnicodeBuffer::new();
-    let mut h = FNV_OFF;
-    let mut n_out = 0;
-    for _ in 0..=r.rep {
-        sh::fill(&mut buf, &r);
-        let gb = if r.mode_plan {
-            buf.guess_segment_properties();
-            let plan = ShapePlan::new(&face, buf.direction(), Some(buf.script()), buf.language().as_ref(), &r.feats);
-            rustybuzz::shape_with_plan(&face, &plan, buf)
-        } else {
-            rustybuzz::shape(&face, &r.feats, buf)
-        };
-        n_out = gb.len();
-        h = fnv(h, out_hash(&gb, &face));
-        if ser {
-            for fl in [
-                SerializeFlags::empty(),
-                SerializeFlags::GLYPH_EXTENTS | SerializeFlags::GLYPH_FLAGS,
-                SerializeFlags::NO_ADVANCES | SerializeFlags::NO_GLYPH_NAMES,
-                SerializeFlags::NO_CLUSTERS | SerializeFlags::NO_POSITIONS,
-            ] {
-                let s = gb.serialize(&face, fl);
-                h = fnv(h, s.len() as u64);
-            }
-        }
-        buf = gb.clear();
-    }
-    Some(format!("ok in={} out={} ms={} h={}", n_in, n_out, t0.elapsed().as_millis(), h))
+    Some(c01_run(&face, &r, ser, t0))
 }
 
 pub fn handle(toks: &[&str], st: &mut State) -> Option<String> {
